@@ -72,6 +72,8 @@ func main() {
 		minimiseMain(os.Args[2:])
 	case "driver":
 		driverMain(os.Args[2:])
+	case "selftest":
+		selftestMain(os.Args[2:])
 	default:
 		fmt.Fprintln(os.Stderr, "unknown subcommand")
 		os.Exit(2)
@@ -106,7 +108,11 @@ func workerMain(args []string) {
 		fmt.Printf("START %d %d\n", i, ws)
 		plan, out := runOne(*prop, ws, *tier)
 		if *dumpLog {
-			fmt.Printf("LOG %d %s steps=%d fs=%v viol=%v\n", i, out.Sig, out.Steps, out.FS, out.Violation != nil)
+			vc := ""
+			if out.Violation != nil {
+				vc = out.Violation.Class() + ":" + out.Violation.Msg
+			}
+			fmt.Printf("LOG %d seed=%d ev=%s steps=%d sim=%d fs=%v probes=%v viol=%q inconcl=%q\n", i, ws, out.EvHash, out.Steps, out.SimNS, out.FS, out.Probes, trunc(vc, 200), out.Inconclusive)
 			continue
 		}
 		if out.Violation != nil {
